@@ -833,8 +833,17 @@ class DocTest:
                     )
                 except KeyboardInterrupt:  # nocover
                     raise
-                except Exception:
-                    raise
+                except Exception as ex:
+                    # Errors that only show up when the part is compiled
+                    # (e.g. a return outside of a function) are failures of
+                    # the doctest like any other.
+                    self.exc_info = sys.exc_info()
+                    self.failed_tb_lineno = getattr(ex, 'lineno', None) or 1
+                    self.logged_evals[partx] = got_eval
+                    self.logged_stdout[partx] = ''
+                    if on_error == 'raise':
+                        raise
+                    break
                     # self.exc_info = sys.exc_info()
                     # ex_type, ex_value, tb = self.exc_info
                     # self.failed_tb_lineno = tb.tb_lineno
@@ -1321,7 +1330,7 @@ class DocTest:
                                 # raise Exception('foo')
                                 # continue
 
-                        if self._partfilename is not None and self._partfilename in line:
+                        if self._partfilename is not None and self._partfilename in line and ', in ' in line:
                             # Intercept the line corresponding to the doctest
                             tbparts = line.split(',')
                             tb_lineno = int(tbparts[-2].strip().split()[1])
